@@ -464,6 +464,13 @@ TypeOK == /\ clock \in 0..MaxT /\ cursor \in 0..MaxT
           /\ \A o \in Obj : sb[o] \in 0..MaxT /\ down[o] \in 0..MaxT /\ tabC[o] \in -1..(MaxT + 1) /\ tabD[o] \in -1..MaxT
 
 PlanOut == Len(hist) = MaxOps => PrintT("PLAN " \o ToJson(hist))
+\* two-collection configurations: only the histories in which, within one writer life, an operation on a partition of one
+\* collection is delivered after the drop of another collection was handled
+SibHist(h) == \E i \in 1..Len(h), j \in 1..Len(h) :
+                 /\ i < j /\ \A n \in i..j : h[n].op = "deliver"
+                 /\ h[i].kind = "dropCollection"
+                 /\ h[j].kind \in {"loadPartitions", "releasePartitions"} /\ h[j].coll # h[i].coll
+PlanOutSib == Len(hist) = MaxOps /\ SibHist(hist) => PrintT("PLAN " \o ToJson(hist))
 
 (* ---------------- part (a) as a plan generator ---------------------------- *)
 \* one step: choose a case; hist = <<case>>.  via = "wait" (exported Wait*Ready) or an operation kind whose chain
